@@ -75,9 +75,10 @@ impl Collector {
         match m.get_mut(&v.sig) {
             Some((old, n)) => {
                 *n += 1;
-                let newkey = (v.script.len(), format!("{:?}{:?}", v.script, v.op));
-                let oldkey = (old.script.len(), format!("{:?}{:?}", old.script, old.op));
-                if newkey < oldkey {
+                // (formatting both scripts on every duplicate serialised all threads on badly broken trees)
+                if v.script.len() < old.script.len()
+                    || (v.script.len() == old.script.len() && format!("{:?}{:?}", v.script, v.op) < format!("{:?}{:?}", old.script, old.op))
+                {
                     *old = v;
                 }
             }
@@ -288,14 +289,24 @@ pub struct Outcome {
 
 /// Finish a run: match violations against the known-findings file, write replay
 /// files and evidence, print the verdict lines. Returns the exit code.
-pub fn finish(c: &Collector, verif_dir: &str, level_rule: &str, assumptions: &[&str], exhaustive: bool) -> i32 {
+/// Where replay files and evidence go: /verif, unless VERIF_OUT_DIR says otherwise (the seed
+/// runner points it elsewhere so that runs against seeded changes never overwrite the evidence
+/// of the real tree).
+pub fn out_dir(verif_dir: &str) -> String {
+    std::env::var("VERIF_OUT_DIR").ok().filter(|s| !s.is_empty()).unwrap_or_else(|| verif_dir.to_string())
+}
+
+pub fn finish(c: &Collector, verif_dir: &str, level_rule: &str, assumptions: &[&str], exhaustive: bool, machinery_errors: &[String]) -> i32 {
     let known = load_known(&format!("{}/known_findings.json", verif_dir));
-    let viol = c.viol.lock().unwrap();
+    let viol = c.viol.lock().unwrap_or_else(|e| e.into_inner());
     let mut exit = 0;
     let mut n_written = 0;
     let mut known_matched = Vec::new();
-    let replay_dir = format!("{}/replays", verif_dir);
-    let _ = std::fs::create_dir_all(&replay_dir);
+    let mut io_errors: Vec<String> = Vec::new();
+    let replay_dir = format!("{}/replays", out_dir(verif_dir));
+    if let Err(e) = std::fs::create_dir_all(&replay_dir) {
+        io_errors.push(format!("cannot create {}: {}", replay_dir, e));
+    }
     // remove stale replay files of this property
     if let Ok(rd) = std::fs::read_dir(&replay_dir) {
         for e in rd.flatten() {
@@ -319,9 +330,15 @@ pub fn finish(c: &Collector, verif_dir: &str, level_rule: &str, assumptions: &[&
         exit = 1;
         if n_written < 20 {
             let path = format!("{}/{}-{}.json", replay_dir, c.property, n_written);
-            let body = serde_json::to_string_pretty(&violation_json(v, *count)).unwrap();
-            std::fs::write(&path, body).expect("cannot write replay file");
-            out!("VIOLATION property={} replay={}", v.property, path);
+            let body = serde_json::to_string_pretty(&violation_json(v, *count)).unwrap_or_else(|_| "{}".into());
+            // the verdict line does not depend on the artefact: a write error is reported, not fatal
+            match std::fs::write(&path, body) {
+                Ok(()) => out!("VIOLATION property={} replay={}", v.property, path),
+                Err(e) => {
+                    out!("VIOLATION property={} replay=(not written: {})", v.property, e);
+                    io_errors.push(format!("cannot write {}: {}", path, e));
+                }
+            }
             out!(
                 "  signature: {}\n  geometry {}x{} script: [{}]\n  op: {}\n  {}",
                 sig,
@@ -343,6 +360,7 @@ pub fn finish(c: &Collector, verif_dir: &str, level_rule: &str, assumptions: &[&
     let caps = c.caps.lock().unwrap().clone();
     let counters = c.counters.lock().unwrap().clone();
     let samples = c.samples.lock().unwrap().clone();
+    let oracle_checks = counters.get("oracle_checks").cloned().unwrap_or(0);
     let seed: i64 = std::env::var("VERIF_SEED").ok().and_then(|s| s.parse().ok()).unwrap_or(0);
     let ev = json!({
         "property_id": c.property,
@@ -352,12 +370,14 @@ pub fn finish(c: &Collector, verif_dir: &str, level_rule: &str, assumptions: &[&
         "coverage": {
             "states": states,
             "transitions": transitions,
-            "traces_validated_against_impl": transitions,
-            "evaluations": transitions,
+            // implementation executions whose result an oracle (reference model, invariant,
+            // differential twin) actually judged; the rest of `transitions` only extend the search
+            "traces_validated_against_impl": oracle_checks,
             "distinct_nontrivial": outcomes,
             "rule": level_rule,
             "samples": samples,
-            "exhaustive": exhaustive && caps.is_empty(),
+            "exhaustive": exhaustive && caps.is_empty() && machinery_errors.is_empty(),
+            "machinery_errors": machinery_errors,
             "distinct_outcomes": outcomes,
             "caps_hit": caps,
             "bounds": *c.bounds.lock().unwrap(),
@@ -369,13 +389,11 @@ pub fn finish(c: &Collector, verif_dir: &str, level_rule: &str, assumptions: &[&
         "wall_s": wall,
         "violations": unlisted,
     });
-    let evdir = format!("{}/evidence", verif_dir);
+    let evdir = format!("{}/evidence", out_dir(verif_dir));
     let _ = std::fs::create_dir_all(&evdir);
-    std::fs::write(
-        format!("{}/{}.json", evdir, c.property),
-        serde_json::to_string_pretty(&ev).unwrap(),
-    )
-    .expect("cannot write evidence");
+    if let Err(e) = std::fs::write(format!("{}/{}.json", evdir, c.property), serde_json::to_string_pretty(&ev).unwrap_or_default()) {
+        io_errors.push(format!("cannot write evidence: {}", e));
+    }
     out!(
         "{} {}: states={} transitions={} distinct_outcomes={} violations={} known={} wall={:.1}s{}",
         c.property,
@@ -388,5 +406,11 @@ pub fn finish(c: &Collector, verif_dir: &str, level_rule: &str, assumptions: &[&
         wall,
         if caps.is_empty() { String::new() } else { format!(" caps_hit={:?}", caps) }
     );
+    for e in &io_errors {
+        out!("MACHINERY: {}", e);
+    }
+    if exit == 0 && !io_errors.is_empty() {
+        return 2;
+    }
     exit
 }
